@@ -23,6 +23,6 @@ CFG = {
              "64-bit ==: mod.rs derive(PartialEq) over the BTreeMap is Treemap.eq (same length, pairwise equal keys and Bitmap.eq values - mirrored, notes/fidelity-treemap.md); C04_eq_iff_elems64 / C10_eq_iff prove it extensional for TWF treemaps",
              "fidelity audit (notes/fidelity-bitmap-core.md): `==` is now executed by the driver as Bitmap.eqMirror (RoaringModel/Mirror32.lean): Store::eq compares two bitsets through the cached len and the zipped value iterators (store/mod.rs:524-527), not word by word; Bitmap.eq_mirror_eq proves it equal to Bitmap.eq on stores satisfying their invariant (provided by Bitmap.WF) and C04_eqMirror_iff_elems restates the extensionality theorem for it; producer row full() added (C04_producer_full; never executed: 2^32 elements). The derived PartialEq of Container / Vec<Container> is modelled by contract (length + element-wise)",
              "clone/clone_from are the identity in the model (std Clone / Vec::clone_from / BTreeMap::clone_from trusted); exercised by the clone_from / tclone_from ops"],
-    "level_text": "Canonical-form theorem (Lean 4, kernel-checked): two well-formed model values with the same elements are identical, hence `==`, serialized bytes and serialized_size agree for every pair of histories whose producers are proved to return well-formed values; producers without a theorem yet and the tie to the Rust code are covered by producer x producer differential runs.",
+    "level_text": "Canonical-form theorem (Lean 4, kernel-checked): two well-formed model values with the same elements are identical, hence `==`, serialized bytes and serialized_size agree for every pair of histories: every producer the property names has a well-formedness theorem for both types (mutators and histories C01/C10, set algebra C02/C11, multi-ops C09/C11, bit-slice import C17, decoders C06/C13, from_bitmaps, clone); the `==` proved about is the mirrored Store::eq (cached len + zipped values); the tie to the Rust code is the 12-producer x 12-producer differential (plus the treemap half) with `expect true` oracle lines.",
     "level_note": "Trusted: Lean kernel; model mirrors code (checked on generated cases only); `Bitmap.eq` as the model of the derived PartialEq/Store::eq; clone/clone_from are identity in the model (std Clone trusted).",
 }
